@@ -22,8 +22,7 @@ package zkaffg
 
 //@ func (*Proof).Verify
 //@   nopanic[C05]
-//@   modifies nothing
-//@   allocates
+//@   modifies hstate(hash)
 //@   requires hash != nil && hash.h != nil && public.Kv != nil && public.Dv != nil && public.Fp != nil && public.Xp != nil && pkok(public.Prover) && pkok(public.Verifier) && pedok(public.Aux) && (p != nil ==> shaped(p))
 
 //@ func challenge
